@@ -395,8 +395,8 @@ MANIFEST = {
                  "real arp command inside generated private network namespaces",
     "level_text": "Theorems C17_attached / C17_fallback_order / C17_overrides_win / C17_vpn_iff_no_mac / "
                   "C17_error_not_empty_source hold for every host configuration; the model is compared inside Coq with "
-                  "getScanRange, ipScanCmdOpts.parseOptions and frames of `sx arp` seen on veth wires for generated "
-                  "configurations read back from the kernel.",
+                  "getScanRange, ipScanCmdOpts.parseOptions and with the probes of real `sx arp` / `sx icmp` runs seen on veth wires "
+                  "and tun devices, for generated configurations read back from the kernel.",
     "level_note": "Trusted: Coq kernel + VM, the byte-level model of Go's net package and of netlink route listing (tied "
                   "by testing only), kernel enumeration order is an input. No axioms. A default route counts only without "
                   "a preferred-source attribute and with metric < 2^31-1, as in the code.",
